@@ -359,6 +359,18 @@ func (s *StateMachine) SlashValidator(validator *Validator, chainId, percent uin
 		if err = s.EventSlash(validator.Address, slashAmount); err != nil {
 			return err
 		}
+		// remove any deferred 'unstaking' / 'max paused' markers of the validator, otherwise the end-block action
+		// at that height looks up a validator that no longer exists and every block at that height fails
+		if validator.UnstakingHeight != 0 {
+			if err = s.Delete(KeyForUnstaking(validator.UnstakingHeight, addr)); err != nil {
+				return err
+			}
+		}
+		if validator.MaxPausedHeight != 0 {
+			if err = s.Delete(KeyForPaused(validator.MaxPausedHeight, addr)); err != nil {
+				return err
+			}
+		}
 		// DeleteValidator subtracts from staked supply
 		return s.DeleteValidator(validator)
 	}
